@@ -76,6 +76,10 @@ void *mremap_wrapper(void *old_address __attribute__((__unused__)),
 /* Sleep delay in ms */
 #define RCU_SLEEP_DELAY_MS	10
 #define INIT_READER_COUNT	8
+#ifdef URCU_VERIF_INIT_READER_COUNT
+#undef INIT_READER_COUNT
+#define INIT_READER_COUNT URCU_VERIF_INIT_READER_COUNT
+#endif
 
 /*
  * Active attempts to check for reader Q.S. before calling sleep().
